@@ -62,8 +62,11 @@ def apply(src, norm):
 def record(text, norm, defs):
     """-> dict(text0, text1, text2, status2) or None if the FIRST application raises (not a C40 matter)."""
     from loki import Sourcefile
-    src = Sourcefile.from_source(text, definitions=defs)
-    text0 = src.to_fortran()
+    try:
+        src = Sourcefile.from_source(text, definitions=defs)
+        text0 = src.to_fortran()
+    except Exception as ex:  # pylint: disable=broad-except
+        return {'first_raised': f'frontend {type(ex).__name__}: {ex}'[:200]}     # C01/C02 territory
     try:
         apply(src, norm)
         text1 = src.to_fortran()
@@ -165,7 +168,7 @@ def run(ctx):
         for norm in norms:
             rec = record(text, norm, cmod.modules if corpus.startswith('imports') else None)
             if 'first_raised' in rec:
-                k = f'{norm}/{corpus.split("+")[0]}'
+                k = ('frontend' if rec['first_raised'].startswith('frontend') else norm) + f'/{corpus.split("+")[0]}'
                 first_raised[k] = first_raised.get(k, 0) + 1
                 continue
             meta.append((corpus, norm, text, rec['err']))
@@ -212,3 +215,20 @@ def run(ctx):
         'and sequence-association snippets; respelled in mixed case and with grouped declarations',
         'a first application that raises is not a C40 matter (counted, not judged)',
     ]
+
+
+def selftest(ctx):
+    """Binding / sensitivity: an accepted (text0, text1, text2) record of a real normaliser run is corrupted."""
+    import copy
+    import random
+    from ..selftests import _expect
+    g = F.Gen(random.Random(5), ('select', 'call', 'assoc'))
+    text = S.mixed_case(F.render(S.add_constant_conditionals(g.program(4, 2), random.Random(6), 0.4)), random.Random(7))
+    rec = record(text, 'deadcode', None)
+    good = {k: rec[k] for k in ('text0', 'text1', 'text2', 'status2')}
+    b1 = copy.deepcopy(good); b1['text2'][len(b1['text2']) // 2] += ' '
+    b2 = copy.deepcopy(good); b2['text2'] = b2['text2'][:-2]
+    b3 = copy.deepcopy(good); b3['text2'].insert(3, '! extra')
+    b4 = copy.deepcopy(good); b4['status2'] = 'raised'
+    return _expect(ctx, 'Trace_Idempotent', 'Trace_Idempotent', good, [b1, b2, b3, b4],
+                   ['one line of the second text changed', 'second text truncated', 'line inserted into the second text', 'second application raised'])
